@@ -94,9 +94,10 @@ class Gen:
         OKF = ["plain", "plain", "omitted", "omitted", "cost", "lot", "pair", "assign", "assert", "expr", "multi-omitted",
                "assert-cost", "cancel-assert",
                "assign-zero", "total-cost", "neg-total", "assign-zero-cur", "neg-rate", "bare-zero-assert", "lot-cost-omitted",
-               "big-pair", "expr-precision"]
+               "big-pair", "expr-precision", "assert-fresh-zero", "assign-fresh", "pair-bare-zero"]
         ERRF = ["assert-false", "unbalanced", "zero-entry", "same-sign", "two-omitted", "zero-rate", "same-commodity-rate",
-                "bare-number", "half-unit", "three-commodity", "lot-and-cost", "bare-zero-assert-false", "big-same-sign"]
+                "bare-number", "half-unit", "three-commodity", "lot-and-cost", "bare-zero-assert-false", "big-same-sign",
+                "assert-fresh-false", "bare-zero-multi-false"]
         bad_at = r.randint(0, ntxn - 1) if r.random() < 0.45 else -1
         # the file need not be chronological (entries are kept in file order; date ranges select by date)
         shuffled_dates = r.random() < 0.25
@@ -258,6 +259,54 @@ class Gen:
                 c3 = [x for x in others if x != c2][0]
                 posts.append(P(a1, "%s %s" % (fmt(r.choice([Fraction(0), self.value()])), c3)))
             return posts
+        if fl in ("assert-fresh-zero", "assert-fresh-false", "assign-fresh"):
+            # a commodity whose FIRST mention in the whole ledger is inside an assertion / assignment (nothing registered it before)
+            self.fresh = getattr(self, "fresh", 0) + 1
+            fc = "FR%s" % "ABCDEFGHIJKLMNOPQRSTUVWXYZ"[self.fresh % 26] + "ABCDEFGHIJKLMNOPQRSTUVWXYZ"[(self.fresh // 26) % 26]
+            if fl == "assign-fresh":
+                target = self.value()
+                known[a2] = False
+                if known.get(a1):
+                    bal[a1][fc] = target
+                posts = [P(a1, "= %s %s" % (fmt(target), fc)), a2]
+                if r.random() < 0.3:
+                    posts.reverse()
+                return posts
+            self.track(bal, known, a1, c, v)
+            self.track(bal, known, a2, c, -v)
+            if fl == "assert-fresh-zero":
+                want = r.choice(["0 %s" % fc, "(0 %s)" % fc, "(5 %s - 5 %s)" % (fc, fc), "0.00 %s" % fc])
+            else:
+                want = r.choice(["7 %s" % fc, "(0 %s + 1 %s)" % (fc, fc), "-0.01 %s" % fc])
+            posts = [P(a1, "%s %s = %s" % (fmt(v), c, want)), P(a2, "%s %s" % (fmt(-v), c))]
+            if r.random() < 0.3:
+                # the commodity's first real use comes only afterwards, in the same transaction
+                posts += [P(a1, "3 %s" % fc), P(a2, "-3 %s" % fc)]
+                self.track(bal, known, a1, fc, Fraction(3))
+                self.track(bal, known, a2, fc, Fraction(-3))
+            return posts
+        if fl == "pair-bare-zero":
+            # an implied exchange (two commodities, opposite signs) next to a commodity-less `0` posting
+            others = [x for x in coms if x != c]
+            if not others:
+                return self.txn("plain", coms, accts, prec, bal, known)
+            c2 = r.choice(others)
+            w = self.value()
+            w = -abs(w) if v > 0 else abs(w)
+            known[a1] = known[a2] = False
+            a3 = r.choice(accts)
+            posts = [P(a1, "%s %s" % (fmt(v), c)), P(a2, "%s %s" % (fmt(w), c2)), P(a3, "0")]
+            r.shuffle(posts)
+            return posts
+        if fl == "bare-zero-multi-false":
+            # a bare `= 0` on an account that still holds another commodity: false whatever the asserted posting zeroes
+            others = [x for x in coms if x != c]
+            if not others:
+                return self.txn("assert-false", coms, accts, prec, bal, known) if False else [P(a1, "%s %s = 0" % (fmt(v), c)), a2]
+            c2 = r.choice(others)
+            w = self.value()
+            known[a1] = known[a2] = False
+            return [P(a1, "%s %s" % (fmt(v), c)), P(a1, "%s %s" % (fmt(w), c2)), P(a1, "%s %s = 0" % (fmt(-v), c)), a2]
         if fl == "assign":
             target = self.value(nonzero=False)
             posts = [P(a1, "= %s %s" % (fmt(target), c)), a2]
